@@ -340,24 +340,26 @@ class DlmsConnection:
 
         # Handle HLS verification
         if self.state.current_state == dlms_state.HLS_DONE:
-            if isinstance(apdu, xdlms.ActionResponseNormalWithData):
-                if apdu.status != enums.ActionResultStatus.SUCCESS:
-                    self.state.process_event(dlms_state.HlsFailed())
-                if self.hls_response_valid(utils.parse_as_dlms_data(apdu.data)):
-                    self.state.process_event(dlms_state.HlsSuccess())
-                else:
-                    self.state.process_event(dlms_state.HlsFailed())
-            elif isinstance(
-                apdu, (xdlms.ActionResponseNormalWithError, xdlms.ActionResponseNormal)
+            # Only ActionResponseNormalWithData takes us here.
+            if (
+                apdu.status == enums.ActionResultStatus.SUCCESS
+                and self.hls_proof_is_valid(apdu.data)
             ):
+                self.state.process_event(dlms_state.HlsSuccess())
+            else:
                 self.state.process_event(dlms_state.HlsFailed())
 
-            else:
-                raise exceptions.LocalDlmsProtocolError(
-                    "Received a non Action response when in HLS DONE"
-                )
-
         return apdu
+
+    def hls_proof_is_valid(self, data: bytes) -> bool:
+        """
+        The proof is an octet string. Anything that can't be parsed or verified is not
+        a valid proof.
+        """
+        try:
+            return self.hls_response_valid(utils.parse_as_dlms_data(data))
+        except Exception:
+            return False
 
     def clear_buffer(self):
         self.buffer = bytearray()
